@@ -218,30 +218,28 @@ fn mark_csr_segment_pages(
     meta_page_id: PageId,
     reachable: &mut BTreeSet<PageId>,
 ) -> Result<()> {
-    const META_MAGIC: [u8; 8] = *b"NDBCSRv1";
+    use crate::csr::{META_HEADER_SIZE, META_MAGIC, META_PAGE_COUNTS_OFFSET};
 
     let meta = pager.read_page(meta_page_id)?;
     if meta[0..8] != META_MAGIC {
         return Err(Error::WalProtocol("invalid csr meta magic"));
     }
 
-    let offsets_page_count = u32::from_le_bytes(meta[40..44].try_into().unwrap()) as usize;
-    let edges_page_count = u32::from_le_bytes(meta[44..48].try_into().unwrap()) as usize;
+    // Layout v2 (csr.rs `encode_meta`): four page-id lists follow the header, in the order
+    // offsets, edges, in_offsets (reverse index), in_edges (reverse index).
+    let mut total_pages = 0usize;
+    for i in 0..4 {
+        let at = META_PAGE_COUNTS_OFFSET + i * 4;
+        total_pages += u32::from_le_bytes(meta[at..at + 4].try_into().unwrap()) as usize;
+    }
 
-    let needed = 48usize + (offsets_page_count + edges_page_count) * 8;
+    let needed = META_HEADER_SIZE + total_pages * 8;
     if needed > PAGE_SIZE {
         return Err(Error::WalProtocol("csr meta page overflow"));
     }
 
-    let mut off = 48usize;
-    for _ in 0..offsets_page_count {
-        let id = u64::from_le_bytes(meta[off..off + 8].try_into().unwrap());
-        off += 8;
-        if id != 0 {
-            reachable.insert(PageId::new(id));
-        }
-    }
-    for _ in 0..edges_page_count {
+    let mut off = META_HEADER_SIZE;
+    for _ in 0..total_pages {
         let id = u64::from_le_bytes(meta[off..off + 8].try_into().unwrap());
         off += 8;
         if id != 0 {
@@ -297,5 +295,37 @@ mod tests {
         let mut pager = Pager::open(&ndb).unwrap();
         let pid = pager.allocate_page().unwrap();
         assert_eq!(pid.as_u64(), orphan_blob_id);
+    }
+
+    #[test]
+    fn vacuum_keeps_compacted_segments_in_both_directions() {
+        use crate::engine::GraphEngine;
+
+        let dir = tempdir().unwrap();
+        let ndb = dir.path().join("graph.ndb");
+        let wal = dir.path().join("graph.wal");
+
+        let (a, b, c);
+        {
+            let engine = GraphEngine::open(&ndb, &wal).unwrap();
+            let mut tx = engine.begin_write();
+            a = tx.create_node(10, 1).unwrap();
+            b = tx.create_node(20, 1).unwrap();
+            c = tx.create_node(30, 1).unwrap();
+            tx.create_edge(a, 7, b);
+            tx.create_edge(c, 7, b);
+            tx.commit().unwrap();
+            engine.compact().unwrap();
+            engine.checkpoint_on_close().unwrap();
+        }
+
+        vacuum_in_place(&ndb, &wal).unwrap();
+
+        let engine = GraphEngine::open(&ndb, &wal).unwrap();
+        let snap = engine.begin_read();
+        assert_eq!(snap.neighbors(a, Some(7)).count(), 1);
+        let mut incoming: Vec<_> = snap.incoming_neighbors(b, Some(7)).map(|e| e.src).collect();
+        incoming.sort_unstable();
+        assert_eq!(incoming, vec![a, c]);
     }
 }
